@@ -90,6 +90,8 @@ fn witnesses(ctx: &mut Ctx) {
     match ctx.prop.as_str() {
         "C02" => tokprops::c02_witness_many_nodes(ctx),
         "C03" => tokprops::c03_witness_astral(ctx),
+        "C07" => dictprops::c07_witnesses(ctx),
+        "C10" => miscprops::c10_witnesses(ctx),
         _ => {}
     }
 }
@@ -128,7 +130,7 @@ fn main() {
             let start = Instant::now();
             let mut ctx = Ctx::new(&a.prop, a.tier, a.seed, a.shard, a.nshards, a.known.clone(), &a.flavour);
             let cur = format!("{}.cur", a.out);
-            if a.shard == 0 && a.stage == "main" {
+            if a.shard == 0 && (a.stage == "main" || a.stage == "avx2") {
                 let _ = std::fs::write(&cur, "witnesses");
                 witnesses(&mut ctx);
             }
